@@ -9,7 +9,7 @@ namespace SimVerif
 inductive Ec where
   | ok | aborted | eof | refused | inUse | denied | notAvail | afNoSupport
   | invalid | msgSize | wouldBlock | notConn | badDesc | hostNotFound | isConn
-  | noBufs | other
+  | noBufs | reset | other
   deriving DecidableEq, Repr, Inhabited
 
 def Ec.ofString : String → Option Ec
@@ -19,7 +19,7 @@ def Ec.ofString : String → Option Ec
   | "invalid" => some .invalid | "msg_size" => some .msgSize
   | "would_block" => some .wouldBlock | "not_conn" => some .notConn
   | "bad_desc" => some .badDesc | "host_not_found" => some .hostNotFound
-  | "is_conn" => some .isConn | "no_bufs" => some .noBufs | "other" => some .other
+  | "is_conn" => some .isConn | "no_bufs" => some .noBufs | "reset" => some .reset | "other" => some .other
   | _ => none
 
 def Ec.toString : Ec → String
@@ -27,7 +27,7 @@ def Ec.toString : Ec → String
   | .inUse => "in_use" | .denied => "denied" | .notAvail => "not_avail"
   | .afNoSupport => "af_no_support" | .invalid => "invalid" | .msgSize => "msg_size"
   | .wouldBlock => "would_block" | .notConn => "not_conn" | .badDesc => "bad_desc"
-  | .hostNotFound => "host_not_found" | .isConn => "is_conn" | .noBufs => "no_bufs"
+  | .hostNotFound => "host_not_found" | .isConn => "is_conn" | .noBufs => "no_bufs" | .reset => "reset"
   | .other => "other"
 
 instance : ToString Ec := ⟨Ec.toString⟩
